@@ -116,7 +116,16 @@ func checkStructure(w *sim.World, st logState) string {
 }
 
 // C14, cooperative engine.
-func runC14Coop(tb ev.TB, p c14Prog) ev.Result {
+func runC14Coop(tb ev.TB, p c14Prog) ev.Result { return runMultiLog("C14")(tb, p) }
+
+// runMultiLog runs the multi-log programs; with prop == "C14" it asserts C14's clauses, with "C02" / "C03" only
+// the heads-vs-entries / linearisation clauses on the quiescent final states (what a torn or shared head map
+// breaks shows up there too).
+func runMultiLog(prop string) func(tb ev.TB, p c14Prog) ev.Result {
+	return func(tb ev.TB, p c14Prog) ev.Result { return runMultiLogImpl(tb, p, prop) }
+}
+
+func runMultiLogImpl(tb ev.TB, p c14Prog, prop string) ev.Result {
 	ctx := context.Background()
 	w := sim.Run(tb, &p.Setup, func(tb ev.TB, w *sim.World, info *sim.OpInfo) {
 		switch info.Op.Kind {
@@ -250,6 +259,27 @@ func runC14Coop(tb ev.TB, p c14Prog) ev.Result {
 	if out.Stuck != "" {
 		return ev.Result{Classes: []string{"inconclusive"}}
 	}
+	if prop != "C14" {
+		if out.Deadlock || len(out.Panics) > 0 {
+			return ev.Result{Classes: []string{"not-this-property(deadlock/panic: C14)"}}
+		}
+		for i, l := range logs {
+			ents, heads := l.VerifState()
+			if prop == "C02" {
+				if msg := headsVsEntries(ents, heads); msg != "" {
+					tb.Fatalf("final state of L%d: %s\ntrace:\n  %s", i, msg, trace)
+				}
+			} else {
+				vals := world.Hashes(l.Values())
+				set := world.SetOf(world.Hashes(ents))
+				sh := &shared{w: w}
+				if msg := linearisationVsSet(sh, vals, set); msg != "" {
+					tb.Fatalf("final Values() of L%d: %s\ntrace:\n  %s", i, msg, trace)
+				}
+			}
+		}
+		return ev.Result{NonTrivial: srcMutatedDuringJoin || crossOverlap, Classes: []string{"multi-log-engine"}}
+	}
 	if out.Deadlock {
 		tb.Fatalf("deadlock: merges cannot complete\n %s\ntrace:\n  %s", strings.Join(out.Blocked, "\n "), trace)
 	}
@@ -276,6 +306,16 @@ func runC14Coop(tb ev.TB, p c14Prog) ev.Result {
 		cl = append(cl, "cross-merges-overlapped")
 	}
 	return ev.Result{NonTrivial: srcMutatedDuringJoin || crossOverlap, Classes: cl}
+}
+
+func TestC02Multi(t *testing.T) {
+	ev.Get("C02")
+	ev.Check(t, "C02", genC14, runMultiLog("C02"))
+}
+
+func TestC03Multi(t *testing.T) {
+	ev.Get("C03")
+	ev.Check(t, "C03", genC14, runMultiLog("C03"))
 }
 
 func TestC14Coop(t *testing.T) {
